@@ -104,6 +104,15 @@ func Param(name string) int {
 	return v
 }
 
+// ParamOr: a run parameter that older configurations do not set.
+func ParamOr(name string, def int) int {
+	v, ok := cur.c.Params[name]
+	if !ok {
+		return def
+	}
+	return v
+}
+
 // Catch runs f; 0 = returned normally, 1 = panicked, 2 = would block forever (symbolic engine only).
 func Catch(f func()) (res int) {
 	defer func() {
